@@ -290,7 +290,10 @@ pub fn finish(mut rep: Report, coverage_extra: serde_json::Value, assumptions: V
     let seed: i64 = std::env::var("VERIF_SEED").ok().and_then(|s| s.parse().ok()).unwrap_or(0);
     let replays = r.join("replays");
     std::fs::create_dir_all(&replays).ok();
-    std::fs::create_dir_all(r.join("evidence")).ok();
+    // Development aid (seeded / mutant runs on a patched tree): evidence of such runs goes elsewhere, so
+    // that /verif/evidence only ever describes runs on /repo itself.  Never set by registered commands.
+    let evdir = std::env::var("GMC_EVIDENCE_DIR").map(std::path::PathBuf::from).unwrap_or_else(|_| r.join("evidence"));
+    std::fs::create_dir_all(&evdir).ok();
     // stale replay files of this property
     if let Ok(rd) = std::fs::read_dir(&replays) {
         for e in rd.flatten() {
@@ -380,7 +383,7 @@ pub fn finish(mut rep: Report, coverage_extra: serde_json::Value, assumptions: V
         "wall_s": (t0.elapsed().as_secs_f64() * 100.0).round() / 100.0,
         "violations": seen_sig.len(),
     });
-    let evp = r.join("evidence").join(format!("{}.json", rep.prop));
+    let evp = evdir.join(format!("{}.json", rep.prop));
     std::fs::write(&evp, serde_json::to_string_pretty(&ev).unwrap()).unwrap();
     println!(
         "{} {}: states={} transitions={} executions={} distinct_observations={} violations={} known={} exhaustive={} wall={:.1}s exit={}",
